@@ -25,7 +25,7 @@
 (* A row is the sequence of its cells up to the LAST VISIBLE one (cells    *)
 (* behind it are invisible); a layer holds exactly `h` rows.               *)
 (***************************************************************************)
-EXTENDS Fonts, TLC
+EXTENDS Fonts, TLC, SequencesExt
 
 \* attribute word: low bits are the text attribute flags, the two top bits are used by the file format
 SHORT_DATA == 16384           \* 0x4000: char / fg / bg / font page follow as one byte each
@@ -58,23 +58,28 @@ DecodeCell(d, o) ==
                      c |-> <<LE16(d, o + 4), LE16(d, o + 2), LE16(d, o + 8), LE16(d, o + 6), LE16(d, o + 12), LE16(d, o + 10), attr, LE16(d, o + 14)>>])
 
 \* one row of a layer of width w starting at offset o: at most w cell records; an END_OF_ROW marker ends the row early;
-\* a row of full width has NO terminator.  acc = cells read so far, lv = index of the last visible one.
-RECURSIVE DecodeRow(_, _, _, _, _)
-DecodeRow(d, o, w, acc, lv) ==
-  IF Len(acc) >= w THEN [ok |-> TRUE, row |-> SubSeq(acc, 1, lv), o |-> o]
-  ELSE LET r == DecodeCell(d, o) IN
-       IF r.k = "err" THEN [ok |-> FALSE, row |-> SubSeq(acc, 1, lv), o |-> o]
-       ELSE IF r.k = "eol" THEN [ok |-> TRUE, row |-> SubSeq(acc, 1, lv), o |-> r.o]
-       ELSE DecodeRow(d, r.o, w, Append(acc, r.c), IF IsVisible(r.c) THEN Len(acc) + 1 ELSE lv)
+\* a row of full width has NO terminator.  State of the scan: acc = cells read so far, lv = index of the last visible one.
+\* (Loops are written as FoldLeft over the positions: TLC evaluates a fold iteratively, while the cost of a RECURSIVE
+\* operator grows with the recursion depth.)
+RowStep(d, st) ==
+  IF st.done THEN st
+  ELSE LET r == DecodeCell(d, st.o) IN
+       IF r.k = "err" THEN [st EXCEPT !.ok = FALSE, !.done = TRUE]
+       ELSE IF r.k = "eol" THEN [st EXCEPT !.o = r.o, !.done = TRUE]
+       ELSE [st EXCEPT !.o = r.o, !.acc = Append(@, r.c), !.lv = IF IsVisible(r.c) THEN Len(st.acc) + 1 ELSE @]
+DecodeRow(d, o, w) ==
+  LET st == FoldLeft(LAMBDA t, x : RowStep(d, t), [ok |-> TRUE, done |-> FALSE, o |-> o, acc |-> <<>>, lv |-> 0], [x \in 1..w |-> x]) IN
+  [ok |-> st.ok, row |-> SubSeq(st.acc, 1, st.lv), o |-> st.o]
 
-\* rows of a layer (w x h) from offset o until h rows are complete or the data is exhausted (then the remaining rows
-\* follow in a continuation chunk, or are empty)
-RECURSIVE DecodeRows(_, _, _, _, _)
+\* rows of a layer (w x h) from offset o, appended to `rows`, until h rows are complete or the data is exhausted (then the
+\* remaining rows follow in a continuation chunk, or are empty)
+RowsStep(d, w, st) ==
+  IF st.done \/ st.o >= Len(d) THEN [st EXCEPT !.done = TRUE]
+  ELSE LET r == DecodeRow(d, st.o, w) IN
+       IF ~r.ok THEN [st EXCEPT !.ok = FALSE, !.done = TRUE] ELSE [st EXCEPT !.o = r.o, !.rows = Append(@, r.row)]
 DecodeRows(d, o, w, h, rows) ==
-  IF Len(rows) >= h \/ o >= Len(d) THEN [ok |-> TRUE, rows |-> rows, o |-> o]
-  ELSE LET r == DecodeRow(d, o, w, <<>>, 0) IN
-       IF ~r.ok THEN [ok |-> FALSE, rows |-> rows, o |-> o]
-       ELSE DecodeRows(d, r.o, w, h, Append(rows, r.row))
+  LET st == FoldLeft(LAMBDA t, y : RowsStep(d, w, t), [ok |-> TRUE, done |-> FALSE, o |-> o, rows |-> rows], [y \in 1..(IF h > Len(rows) THEN h - Len(rows) ELSE 0) |-> y]) IN
+  [ok |-> st.ok, rows |-> st.rows, o |-> st.o]
 
 PadRows(rows, h) == IF Len(rows) >= h THEN rows ELSE rows \o [i \in 1..(h - Len(rows)) |-> <<>>]
 
@@ -169,11 +174,10 @@ EncodeLayerChunks(l, max) ==
              t == TakeRows(l, 1, hl, <<>>, max) IN
          <<LayerHeader(l, Len(t.data)) \o t.data>> \o MoreChunks(l, t.y, max)
 
-RECURSIVE ContinueAll(_, _, _)
-ContinueAll(layer, chunks, i) == IF i > Len(chunks) \/ ~layer.ok THEN layer ELSE ContinueAll(ContinueLayer(layer, chunks[i]), chunks, i + 1)
+ContinueAll(layer, chunks) == FoldLeft(LAMBDA l, ch : IF l.ok THEN ContinueLayer(l, ch) ELSE l, layer, Tail(chunks))
 DecodeLayerChunks(chunks) ==
   LET first == DecodeLayer(chunks[1]) IN
-  IF ~first.ok THEN first ELSE LET l == ContinueAll(first, chunks, 2) IN IF l.ok THEN [ok |-> TRUE, layer |-> FinishLayer(l)] ELSE l
+  IF ~first.ok THEN first ELSE LET l == ContinueAll(first, chunks) IN IF l.ok THEN [ok |-> TRUE, layer |-> FinishLayer(l)] ELSE l
 
 \* ------------------------------------------------------------------------------------------------ header, palette, SAUCE
 \* ICED: version u16, unused u32, buffer type u16, ice mode u8, palette mode u8, font mode u8, width u32, height u32 (19 bytes)
@@ -188,28 +192,24 @@ Dos16 == << <<0,0,0>>, <<0,0,170>>, <<0,170,0>>, <<0,170,170>>, <<170,0,0>>, <<1
 \* PALETTE: "ICE Palette" text: first line the identification, `#...` lines are metadata, every other line is a colour
 \* `rrggbb` in hexadecimal.  Lines end with LF.
 HexVal(c) == IF c \in 48..57 THEN c - 48 ELSE IF c \in 97..102 THEN c - 87 ELSE IF c \in 65..70 THEN c - 55 ELSE -1
-RECURSIVE LineEnd(_, _)
-LineEnd(b, i) == IF i > Len(b) \/ b[i] = 10 THEN i ELSE LineEnd(b, i + 1)     \* index of the LF ending the line that starts at i
-IsColourLine(b, i, e) == e - i >= 6 /\ b[i] # 35 /\ \A k \in 0..5 : HexVal(b[i + k]) >= 0
+IsColourLine(b, i, e) == e - i >= 6 /\ b[i] # 35 /\ \A k \in 0..5 : HexVal(b[i + k]) >= 0       \* the line is b[i .. e-1]
 ColourAt(b, i) == <<16 * HexVal(b[i]) + HexVal(b[i + 1]), 16 * HexVal(b[i + 2]) + HexVal(b[i + 3]), 16 * HexVal(b[i + 4]) + HexVal(b[i + 5])>>
-RECURSIVE PalLines(_, _, _)
-PalLines(b, i, acc) ==
-  IF i > Len(b) THEN acc
-  ELSE LET e == LineEnd(b, i) IN PalLines(b, e + 1, IF IsColourLine(b, i, e) THEN Append(acc, ColourAt(b, i)) ELSE acc)
 IcePaletteId == <<73, 67, 69, 32, 80, 97, 108, 101, 116, 116, 101>>            \* "ICE Palette"
+\* scan state: start = index of the first byte of the current line, n = number of complete lines so far
+PalLine(b, st, e) ==       \* the line b[st.start .. e-1] is complete
+  IF st.n = 0 THEN [st EXCEPT !.ok = SubSeq(b, 1, e - 1) = IcePaletteId, !.n = 1, !.start = e + 1]
+  ELSE [st EXCEPT !.n = @ + 1, !.start = e + 1, !.colors = IF IsColourLine(b, st.start, e) THEN Append(@, ColourAt(b, st.start)) ELSE @]
 DecodeIcePalette(b) ==
-  LET e == LineEnd(b, 1) IN
-  IF SubSeq(b, 1, e - 1) # IcePaletteId THEN [ok |-> FALSE, colors |-> <<>>] ELSE [ok |-> TRUE, colors |-> PalLines(b, e + 1, <<>>)]
+  LET st == FoldLeft(LAMBDA t, i : IF b[i] = 10 THEN PalLine(b, t, i) ELSE t, [ok |-> FALSE, n |-> 0, start |-> 1, colors |-> <<>>], [i \in 1..Len(b) |-> i])
+      fin == IF st.start <= Len(b) THEN PalLine(b, st, Len(b) + 1) ELSE st IN      \* last line without LF
+  [ok |-> fin.ok, colors |-> IF fin.ok THEN fin.colors ELSE <<>>]
 
 \* SAUCE chunk: EOF (1A), optional comment block "COMNT" + n * 64, the 128-byte record "SAUCE" "00" title[35] author[20]
 \* group[20] date[8] filesize u32 datatype u8 filetype u8 tinfo1..4 u16 comments u8 tflags u8 tinfos[22]
 \* (SAUCE rev. 5).  Carried metadata: the three texts and the comment lines without their padding, and for
 \* Character/ANSi records the letter-spacing (tflags bits 1-2 = 10b) and aspect-ratio (bits 3-4 = 01b) requests.
-RECURSIVE TrimEnd(_, _)
-TrimEnd(s, n) == IF n > 0 /\ s[n] \in {0, 32} THEN TrimEnd(s, n - 1) ELSE SubSeq(s, 1, n)
-Trim(s) == TrimEnd(s, Len(s))
-RECURSIVE UntilNul(_, _)
-UntilNul(s, i) == IF i > Len(s) \/ s[i] = 0 THEN SubSeq(s, 1, i - 1) ELSE UntilNul(s, i + 1)
+Trim(s) == SubSeq(s, 1, FoldLeft(LAMBDA m, i : IF s[i] \notin {0, 32} THEN i ELSE m, 0, [i \in 1..Len(s) |-> i]))      \* without trailing blanks / NULs
+UntilNul(s) == SubSeq(s, 1, FoldLeft(LAMBDA m, i : IF s[i] = 0 /\ i <= m THEN i - 1 ELSE m, Len(s), [i \in 1..Len(s) |-> i]))  \* up to the first NUL
 SauceId == <<83, 65, 85, 67, 69>>     ComntId == <<67, 79, 77, 78, 84>>
 DecodeSauce(b) ==
   IF Len(b) < 128 \/ Slice(b, Len(b) - 128, 5) # SauceId THEN [ok |-> FALSE]
@@ -218,7 +218,7 @@ DecodeSauce(b) ==
            cs == r - 64 * nc - 5 IN     \* offset of the comment block
        IF nc > 0 /\ (cs < 0 \/ Slice(b, cs, 5) # ComntId) THEN [ok |-> FALSE]
        ELSE [ok |-> TRUE, title |-> Trim(Slice(b, r + 7, 35)), author |-> Trim(Slice(b, r + 42, 20)), group |-> Trim(Slice(b, r + 62, 20)),
-             comments |-> [k \in 1..nc |-> Trim(UntilNul(Slice(b, cs + 5 + 64 * (k - 1), 64), 1))],
+             comments |-> [k \in 1..nc |-> Trim(UntilNul(Slice(b, cs + 5 + 64 * (k - 1), 64)))],
              ls |-> IF (tf \div 2) % 4 = 2 THEN 1 ELSE 0, ar |-> IF (tf \div 8) % 4 = 1 THEN 1 ELSE 0]
 
 \* ------------------------------------------------------------------------------------------------ chunk keywords
@@ -270,12 +270,11 @@ ChunkStep(st, ch) ==
     [] k.k = "CONT" -> IF k.n >= Len(st.layers) THEN Fail(st, "continuation-without-layer")
                        ELSE LET l == ContinueLayer(st.layers[k.n + 1], ch.d) IN IF ~l.ok THEN Fail(st, l.why) ELSE [st EXCEPT !.layers[k.n + 1] = l]
     [] OTHER -> st        \* unknown keywords are skipped ("try to be extensible")
-RECURSIVE ChunkLoop(_, _, _)
-ChunkLoop(chunks, i, st) == IF i > Len(chunks) \/ ~st.ok \/ st.done THEN st ELSE ChunkLoop(chunks, i + 1, ChunkStep(st, chunks[i]))
+ChunkLoop(chunks, st0) == FoldLeft(LAMBDA st, ch : IF ~st.ok \/ st.done THEN st ELSE ChunkStep(st, ch), st0, chunks)
 
 \* the document a chunk list denotes
 SpecDecode(chunks) ==
-  LET st == ChunkLoop(chunks, 1, InitDoc) IN
+  LET st == ChunkLoop(chunks, InitDoc) IN
   IF ~st.ok THEN [ok |-> FALSE, why |-> st.why]
   ELSE IF ~st.hdr THEN [ok |-> FALSE, why |-> "no-header"]
   ELSE [ok |-> TRUE, why |-> "",
